@@ -14,11 +14,12 @@ from ..core import Prop, Result
 from ..simfs import SimFS, Policy
 from ..swarm import neutral_read_kw, neutral_write_kw, fix_kw
 
-MNEMS = ["COMP", "WELL", "FLD", "LOC", "Comp", "wellName", "X1", "RUN_2", "A-B", "EKB", "DF", "BHT", "a", "LONGMNEMONIC_NAME_XYZ", "R#"]
+MNEMS = ["COMP", "WELL", "FLD", "LOC", "Comp", "wellName", "X1", "RUN_2", "A-B", "EKB", "DF", "BHT", "a", "LONGMNEMONIC_NAME_XYZ", "R#",
+         "0", "1", "-1", "NAN"]          # numerals as mnemonics (numbered array channels): never to be taken for positions
 UNITS = ["", "", "M", "FT", "US/F", "K/M3", "%", "1/S", "DEG.C", "OHM.M", "0.1IN", "m", "MM/HR", "m:s", "G/C3", "LB/F",
          "ft(US)", "in(nom)", "(lbf)/gal", "[psi]a", "m]"]
 TEXTV = ["ACME OIL", "ANY ET AL 12-34-12-34", "W-1", "it's \"quoted\"", "(bracketed) [text]", "SEC 12,13 T4N R5W", "a.b.c", "x/y; z",
-         "value with trailing dot.", "12-OCT-2004", "1200..1350", "see run 2..", "a..b c", "Åsgard Ølje", "Société", "= + * & % $", "A", "GEL CHEM", "1,250 M DRILLER"]
+         "value with trailing dot.", "12-OCT-2004", "1200..1350", "see run 2..", "a..b c", "NAN", "nan", "Nan", "inf", "-INF", "Infinity", "Åsgard Ølje", "Société", "= + * & % $", "A", "GEL CHEM", "1,250 M DRILLER"]
 NUMV = [0, 1, -7, 35.5, 0.001, -1234.5678, 200, 1e-05, 2.5e+20, 123456789, 0.0, 9007199254740993, -9007199254740995,
         1234567890123456789, 4611686018427387905, 10 ** 20, 2 ** 64, -(2 ** 70)]
 DESCRS = ["", "COMPANY", "a description. with dots.", "descr (with) [brackets] 'q' \"qq\"", "x", "1 2 3", "UNIT/DEPTH", "Ærø",
